@@ -8,5 +8,5 @@ def check(res):
     genprop.run(res, "C03", PROPFILE, corpus)
 
 
-PROPFILE = "theories/Properties/C0456.v"
+PROPFILE = "theories/Properties/C03.v"
 replay = genprop.replay
